@@ -255,6 +255,19 @@ def step (line : String) : String :=
     match hexArg h with
     | some bs => if Safe.safe (fun _ => false) bs then "ok" else "err"
     | none => "bad-op"
+  | ["authn", d, e, lb, ck] =>
+    let cfg : Auth.Cfg := { disableAuthn := d == "1", enableLoopbackAuthn := e == "1" }
+    let c : Auth.Cookie := if ck == "mine" then .minted 1 else if ck == "other" then .minted 2
+      else if ck == "garbage" then .garbage else .none
+    match Auth.authn cfg 1 (lb == "1") c with
+    | .served => "served"
+    | .redirectLogin => "redirect-login"
+  | ["login", m, ok] =>
+    match Auth.login 1 m (ok == "1") with
+    | .page => "page"
+    | .issued _ => "issued"
+    | .unauthorized => "unauthorized"
+    | .badMethod => "bad-method"
   | ["planflags", fields] =>
     let fs := if fields == "-" then [] else fields.splitOn ","
     let flags := Plan.plan fs
